@@ -66,7 +66,7 @@ def r1_ownership_dominates_execute(ctx):
         o = gt["dest"]["l"]
         osw = discr_switches(body, o)
         # comparison owner vs process_id
-        pid = [l["i"] for l in body.locals if l.get("name") == "process_id" and l["i"] <= body.mir["argc"]]
+        pid = [l["i"] for l in body.params() if l["ty"] == "usize"]
         cmp_sw = []
         for b2, si, s in body.stmts():
             if s["k"] == "assign" and s["rv"]["k"] == "bin" and s["rv"]["op"] in ("Ne", "Eq"):
@@ -178,7 +178,7 @@ def r2_who_writes_ownership(ctx):
         key = fld.canon_op(t["args"][1])
         val = fl.canon_op(t["args"][2])
         kstr = fld.canon_str(key)
-        pid = [l["i"] for l in hc.locals if l.get("name") == "process_id"]
+        pid = [l["i"] for l in hc.params() if l["ty"] == "usize"]
         ok_val = val is not None and pid and val[0] == pid[0]
         # key comes out of `result` via (Ok).0.0 as Resource .0
         names = [e[1] for e in (key[1] if key else ()) if e[0] == "d"]
@@ -215,7 +215,7 @@ def r3_close(ctx):
                   "each close_resource(rid) is followed by resource_ownership.remove(rid) before the next close or return (closed at most once, cannot be used again)",
                   "a closed resource can stay in the ownership map (double close / use after close)", body.loc(bi))
         # ids closed are filtered by owner == process_id
-        pid = [l["i"] for l in body.locals if l.get("name") == "process_id"]
+        pid = [l["i"] for l in body.params() if l["ty"] == "usize"]
         filt = [k for k in F.closures_of(body.key)]
         okf = False
         for ck in filt:
@@ -345,8 +345,8 @@ def r6_transfer_before_forward(ctx):
     sends = []
     for bi, si, s in agg_sites(hd, "messages::Command", "DeliverMessage"):
         sends += [cb for cb, ct, _ in consumer_calls(hd, fl, s["p"]["l"]) if (ct.get("callee") or "").endswith("::send")]
-    msg = [l["i"] for l in hd.locals if l.get("name") == "message"]
-    tgt = [l["i"] for l in hd.locals if l.get("name") == "target"]
+    msg = [l["i"] for l in hd.params() if l["ty"] == "quiver_core::value::Value"]
+    tgt = [l["i"] for l in hd.params() if l["ty"] == "usize"]
     okargs = any((fl.canon_op(t["args"][1]) or (None,))[0] in msg and (fl.canon_op(t["args"][2]) or (None,))[0] in tgt for _b, t in tr)
     ok = bool(tr) and bool(sends) and okargs and all(hd.must_pass(s, [b for b, _ in tr]) for s in sends)
     ctx.check(ok, R, hd.key + "|transfer-then-send", "transfer_resource_ownership(&message, target) is passed on every path to the DeliverMessage send",
@@ -357,9 +357,10 @@ def r6_transfer_before_forward(ctx):
     sends = []
     for bi, si, s in agg_sites(hs, "messages::Command", "SpawnProcess"):
         sends += [cb for cb, ct, _ in consumer_calls(hs, fl, s["p"]["l"]) if (ct.get("callee") or "").endswith("::send")]
-    arg = [l["i"] for l in hs.locals if l.get("name") == "argument"]
-    caps = [l["i"] for l in hs.locals if l.get("name") == "captures"]
-    newpid = [l["i"] for l in hs.locals if l.get("name") == "new_pid"]
+    arg = [l["i"] for l in hs.params() if l["ty"] == "quiver_core::value::Value"]
+    caps = [l["i"] for l in hs.params() if l["ty"].startswith("alloc::vec::Vec<quiver_core::value::Value")]
+    newpid = [t["dest"]["l"] for _b, t in hs.calls_to("Environment::allocate_process_id")]
+    newpid += [l for l in Flow(hs).forward(set(newpid)) if hs.local_ty(l) == "usize"]
     arg_tr = [b for b, t in tr if (fl.canon_op(t["args"][1]) or (None,))[0] in arg and (fl.canon_op(t["args"][2]) or (None,))[0] in newpid]
     cap_tr = []
     for b, t in tr:
